@@ -82,6 +82,15 @@ def gen(rng, tier, index):
                        "ela": rng.random() < 0.3, "corrupt": rng.random() < 0.08, "gap": gap,
                        "base": rng.choice([0, 0, 0, 0x100, 0x7000]) if ln <= 0x8000 else 0})
     nodes = rng.sample([1, 2, 3, 42, 200, 254], rng.randint(1, 3))
+    extra_cfg = {}
+    if len(images) >= 2 and rng.random() < 0.3:
+        extra_cfg["late_image"] = rng.randrange(len(images))
+        extra_cfg["late_at"] = rng.choice([0.05, 0.4, 1.0, 2.5])
+    if flavour in ("aserial", "atcp") and len(images) >= 2 and rng.random() < 0.5:
+        extra_cfg["concurrent_updates"] = True
+        for i, img in enumerate(images[:2]):
+            img["via"], img["corrupt"] = "hex", False
+            img["type"] = 100 + i  # two different firmwares
     sessions = []
     for nid in nodes:
         sessions.append({"node": nid, "image": rng.randrange(len(images)), "order": rng.choice(["desc", "desc", "asc", "random"]),
@@ -89,9 +98,10 @@ def gen(rng, tier, index):
                          "sleepy": rng.random() < 0.3})
     rates = rng.choice([{"drop": 0.0, "dup": 0.0, "delay": 0.0}, {"drop": 0.03, "dup": 0.03, "delay": 0.1}, {"drop": 0.1, "dup": 0.1, "delay": 0.3},
                         {"drop": 0.0, "dup": 0.2, "delay": 0.5}])
-    return {"cfg": {"flavour": flavour, "version": rng.choice(["1.4", "2.0", "2.2"]), "images": images, "rates": rates,
-                    "link_seed": rng.getrandbits(32), "fault_until": rng.choice([2.0, 5.0, 20.0]), "sched": {"policy": "serial"}},
-            "ops": sessions}
+    cfg = {"flavour": flavour, "version": rng.choice(["1.4", "2.0", "2.2"]), "images": images, "rates": rates,
+           "link_seed": rng.getrandbits(32), "fault_until": rng.choice([2.0, 5.0, 20.0]), "sched": {"policy": "serial"}}
+    cfg.update(extra_cfg)
+    return {"cfg": cfg, "ops": sessions}
 
 
 def _vio(cls, detail, **sig):
@@ -290,14 +300,20 @@ def run(case):
                     if spec.get("sleepy"):
                         world.feed(f"{spec['node']};1;0;0;6;t\n{spec['node']};255;{wake}\n")
                         probes["sleepy_peers"] = probes.get("sleepy_peers", 0) + 1
-            images = []
+            n_img = len(cfg["images"])
+            images = [None] * n_img
             loaded = {}
             scheduled = {}  # node -> key of the last update call that really scheduled it
-            for idx, img in enumerate(cfg["images"]):
+            keys = [(img["type"], img["ver"]) for img in cfg["images"]]
+            late = cfg.get("late_image")
+            if late is not None and (late >= n_img or n_img < 2 or keys.count(keys[late]) > 1):
+                late = None
+
+            def prepare(idx):
+                img = cfg["images"][idx]
                 data = bytes.fromhex(img["data"])
-                key = (img["type"], img["ver"])
-                targets = [s["node"] for s in case["ops"] if s["image"] == idx]
-                ok = True
+                prep = {"idx": idx, "img": img, "data": data, "key": keys[idx], "ok": True, "path": None,
+                        "targets": [s["node"] for s in case["ops"] if s["image"] == idx]}
                 if img["via"] == "hex":
                     text = intel_hex(data, img["record_len"], img.get("base", 0), img["ela"], img.get("gap"))
                     if img.get("gap"):
@@ -308,38 +324,85 @@ def run(case):
                         bad = first[:-2] + f"{(int(first[-2:], 16) ^ 0x5A):02X}"
                         lines[1 if img["ela"] else 0] = bad
                         text = "\n".join(lines)
-                        ok = False
+                        prep["ok"] = False
                         faults["corrupt_hex"] = faults.get("corrupt_hex", 0) + 1
-                    path = f"/work/fw{idx}.hex"
-                    fs.put(path, text.encode())
+                    prep["path"] = f"/work/fw{idx}.hex"
+                    fs.put(prep["path"], text.encode())
+                return prep
+
+            def record(prep):
+                if prep["ok"]:
+                    loaded[prep["key"]] = prep["data"]  # a later image with the same key replaces the earlier one
+                    for nid in prep["targets"]:
+                        scheduled[nid] = prep["key"]
+                images[prep["idx"]] = (prep["key"], prep["ok"])
+
+            def issue(idx):
+                prep = prepare(idx)
+                img = prep["img"]
+                if prep["path"] is not None:
                     try:
-                        world.call("update_fw", targets, img["type"], img["ver"], fw_path=path)
-                        if ok:
+                        world.call("update_fw", prep["targets"], img["type"], img["ver"], fw_path=prep["path"])
+                        if prep["ok"]:
                             probes["hex_loaded"] = probes.get("hex_loaded", 0) + 1
                     except Exception as exc:  # pylint: disable=broad-except
-                        if ok:
+                        if prep["ok"]:
                             violations.append(_vio("update-raised", {"exc": repr(exc), "via": "hex"}, exc=type(exc).__name__))
+                elif W.is_async(flavour):
+                    world.on_loop(lambda t=prep["targets"], i=img, d=prep["data"]: gateway.tasks.ota.make_update(t, i["type"], i["ver"], d))
                 else:
-                    if W.is_async(flavour):
-                        world.on_loop(lambda t=targets, i=img, d=data: gateway.tasks.ota.make_update(t, i["type"], i["ver"], d))
-                    else:
-                        gateway.tasks.ota.make_update(targets, img["type"], img["ver"], data)
-                if ok:
-                    loaded[key] = data  # a later image with the same key replaces the earlier one
-                    for nid in targets:
-                        scheduled[nid] = key
-                images.append((key, ok))
+                    gateway.tasks.ota.make_update(prep["targets"], img["type"], img["ver"], prep["data"])
+                record(prep)
+
+            pair = []
+            if cfg.get("concurrent_updates") and W.is_async(flavour):
+                # two update calls for two different HEX files issued together on the loop (asyncio.gather): each
+                # must register ITS file's bytes under its key
+                cand = [i for i in range(n_img) if i != late and cfg["images"][i]["via"] == "hex" and not cfg["images"][i]["corrupt"]
+                        and keys.count(keys[i]) == 1]
+                if len(cand) >= 2:
+                    pair = cand[:2]
+                    preps = [prepare(i) for i in pair]
+
+                    async def both():
+                        import asyncio as _asyncio  # pylint: disable=import-outside-toplevel
+                        await _asyncio.gather(*[gateway.update_fw(pp["targets"], pp["img"]["type"], pp["img"]["ver"], fw_path=pp["path"]) for pp in preps])
+
+                    try:
+                        world.acall(both())
+                        probes["concurrent_hex_updates"] = 1
+                        probes["hex_loaded"] = probes.get("hex_loaded", 0) + 2
+                    except Exception as exc:  # pylint: disable=broad-except
+                        violations.append(_vio("update-raised", {"exc": repr(exc), "via": "hex, two calls gathered"}, exc=type(exc).__name__))
+                    for pp in preps:
+                        record(pp)
+            for idx in range(n_img):
+                if idx == late or idx in pair:
+                    continue
+                issue(idx)
             link = Link(world, cfg["rates"], cfg["link_seed"], cfg["fault_until"])
             peers = []
-            for spec in case["ops"]:
-                key, ok = images[spec["image"]]
-                expect = scheduled.get(spec["node"]) == key
-                if not expect and spec["node"] in scheduled:
-                    key = scheduled[spec["node"]]  # an earlier successful call still stands
-                    expect = True
-                peer = Bootloader(link, spec, key, expect)
-                peers.append(peer)
-                peer.start()
+
+            def start_peers(which):
+                for spec in case["ops"]:
+                    if not which(spec):
+                        continue
+                    key, ok = images[spec["image"]]
+                    expect = scheduled.get(spec["node"]) == key
+                    if not expect and spec["node"] in scheduled:
+                        key = scheduled[spec["node"]]  # an earlier successful call still stands
+                        expect = True
+                    peer = Bootloader(link, spec, key, expect)
+                    peers.append(peer)
+                    peer.start()
+
+            start_peers(lambda spec: spec["image"] != late)
+            if late is not None:
+                # one more update call (another firmware, other nodes) arrives while the first transfers are under way
+                world.advance(cfg.get("late_at", 0.4))
+                issue(late)
+                probes["update_call_during_transfers"] = 1
+                start_peers(lambda spec: spec["image"] == late)
             # bounded liveness: after link faults stop, every transfer needs at most one
             # round trip per (re)requested block plus one timeout per block of slack
             total_blocks = sum(((len(loaded.get(p.key, b"")) + 127) // 128 + 1) * 8 * (1 + p.spec["repeat"]) + 4 for p in peers)
